@@ -89,10 +89,203 @@ theorem rotate_correct {α} [Inhabited α] (a : Int) (b : List α) : implRotate 
           rw [e2, List.getD_eq_getElem?_getD, List.getElem?_eq_getElem (by simp; omega)]
           simp
 
+/-! ### Take: windows of the endless repetition of `b` -/
+
+/-- `len` consecutive elements of the endless repetition of `b`, starting at `s` -/
+def window {α} [Inhabited α] (b : List α) (s len : Nat) : List α :=
+  (List.range len).map (fun i => cyc b (s + i))
+
+section
+variable {α : Type _} [Inhabited α]
+
+@[simp] theorem window_length (b : List α) (s len : Nat) : (window b s len).length = len := by
+  simp [window]
+
+theorem getElem_window (b : List α) (s len i : Nat) (h : i < (window b s len).length) :
+    (window b s len)[i] = cyc b (s + i) := by
+  simp [window]
+
+theorem cyc_add_mul (b : List α) (i k : Nat) : cyc b (i + k * b.length) = cyc b i := by
+  unfold cyc
+  rw [Nat.add_mul_mod_self_right]
+
+theorem window_add_mul (b : List α) (s k len : Nat) :
+    window b (s + k * b.length) len = window b s len := by
+  unfold window
+  apply List.map_congr_left
+  intro i _
+  have : s + k * b.length + i = (s + i) + k * b.length := by omega
+  rw [this, cyc_add_mul]
+
+theorem window_append (b : List α) (s l1 l2 : Nat) :
+    window b s l1 ++ window b (s + l1) l2 = window b s (l1 + l2) := by
+  unfold window
+  rw [List.range_add, List.map_append, List.map_map]
+  congr 1
+  apply List.map_congr_left
+  intro i _
+  simp [Nat.add_assoc]
+
+theorem window_take (b : List α) (s len j : Nat) :
+    (window b s len).take j = window b s (min j len) := by
+  unfold window
+  rw [← List.map_take, List.take_range]
+
+theorem window_drop (b : List α) (s len j : Nat) :
+    (window b s len).drop j = window b (s + j) (len - j) := by
+  apply List.ext_getElem
+  · simp
+  · intro i h1 h2
+    rw [List.getElem_drop, getElem_window, getElem_window, Nat.add_assoc]
+
+theorem self_eq_window (b : List α) : b = window b 0 b.length := by
+  apply List.ext_getElem
+  · simp
+  · intro i h1 h2
+    rw [getElem_window]
+    unfold cyc
+    rw [Nat.zero_add, Nat.mod_eq_of_lt h1, List.getD_eq_getElem?_getD, List.getElem?_eq_getElem h1]
+    simp
+
+theorem take_self (b : List α) (j : Nat) : b.take j = window b 0 (min j b.length) := by
+  conv => lhs; rw [self_eq_window b]
+  rw [window_take]
+
+theorem drop_self (b : List α) (j : Nat) : b.drop j = window b j (b.length - j) := by
+  conv => lhs; rw [self_eq_window b]
+  rw [window_drop, Nat.zero_add]
+
+theorem tile_eq_window (b : List α) (k : Nat) : tile b k = window b 0 (k * b.length) := by
+  induction k with
+  | zero => simp [tile, window]
+  | succ k ih =>
+    unfold tile
+    rw [ih]
+    conv => lhs; arg 1; rw [self_eq_window b]
+    have h := window_add_mul b 0 1 (k * b.length)
+    rw [Nat.one_mul] at h
+    rw [← h, window_append, Nat.succ_mul, Nat.add_comm]
+
+theorem window_eq_of (b : List α) (s1 s2 j1 j2 len1 len2 : Nat)
+    (h : s1 + j1 * b.length = s2 + j2 * b.length) (hl : len1 = len2) :
+    window b s1 len1 = window b s2 len2 := by
+  subst hl
+  rw [← window_add_mul b s1 j1, h, window_add_mul]
+
+end
+
+theorem slice_none_some {α} (xs : List α) (i : Int) (h : 0 ≤ i) :
+    slice xs none (some i) = xs.take i.toNat := by
+  unfold slice pyClamp
+  have : ¬ i < 0 := by omega
+  simp only [this, if_false, List.drop_zero, Nat.sub_zero]
+  rw [List.take_eq_take_iff]
+  omega
+
+theorem slice_some_none_neg {α} (xs : List α) (i : Int) (h : i < 0) :
+    slice xs (some i) none = xs.drop (xs.length - i.natAbs) := by
+  unfold slice pyClamp
+  simp only [h, if_true]
+  have : (↑xs.length + i).toNat = xs.length - i.natAbs := by omega
+  rw [this]
+  apply List.take_of_length_le
+  simp
+
+theorem slice_some_none_nonneg {α} (xs : List α) (i : Int) (h : 0 ≤ i) :
+    slice xs (some i) none = xs.drop i.toNat := by
+  unfold slice pyClamp
+  have : ¬ i < 0 := by omega
+  simp only [this, if_false]
+  rw [List.take_of_length_le (by simp)]
+  by_cases h2 : i.toNat ≤ xs.length
+  · rw [Nat.min_eq_left h2]
+  · have h3 : xs.length ≤ i.toNat := by omega
+    rw [Nat.min_eq_right h3, List.drop_eq_nil_of_le h3, List.drop_eq_nil_of_le (Nat.le_refl _)]
+
 /-- **take_correct**: the tile / concatenate / slice arithmetic of `eval_dyad_take` is cyclic
     extraction of |a| elements from the front (back when negative) -/
 theorem take_correct {α} [Inhabited α] (a : Int) (b : List α) : implTake a b = refTake a b := by
-  sorry
+  unfold implTake refTake
+  dsimp only
+  by_cases hn : b.length = 0
+  · simp only [hn, if_true]
+    exact List.eq_nil_of_length_eq_zero hn
+  · simp only [hn, if_false]
+    generalize hm : a.natAbs = m
+    have w0 : List.map (fun i => cyc b i) (List.range m) = window b 0 m := by simp [window]
+    have w1 : List.map (fun i => cyc b (b.length - m % b.length + i)) (List.range m)
+        = window b (b.length - m % b.length) m := rfl
+    rw [w0, w1]
+    clear w0 w1
+    have hnpos : 0 < b.length := by omega
+    by_cases hgt : m > b.length
+    · simp only [hgt, if_true, tile_eq_window, window_length]
+      have hr : m % b.length < b.length := Nat.mod_lt _ hnpos
+      have hdiv : b.length * (m / b.length) + m % b.length = m := Nat.div_add_mod m b.length
+      have hk : 0 < m / b.length := Nat.div_pos (by omega) hnpos
+      generalize m / b.length = k at *
+      generalize m % b.length = r at *
+      rw [Nat.mul_comm] at hdiv
+      have hKn : b.length ≤ k * b.length := Nat.le_mul_of_pos_left _ hk
+      generalize hK : k * b.length = K at *
+      have e : (m : Int) - (K : Int) = (r : Int) := by omega
+      rw [e]
+      by_cases hpos : a > 0
+      · have h1 : ¬ a < 0 := by omega
+        have h2 : a ≥ 0 := by omega
+        simp only [hpos, h1, h2, if_true, if_false]
+        rw [slice_none_some _ _ (by omega), slice_none_some _ _ (by omega), window_take]
+        have h3 : min (r : Int).toNat K = r := by omega
+        rw [h3]
+        have h4 := window_add_mul b 0 k r
+        rw [hK] at h4
+        rw [← h4, window_append, List.take_of_length_le (by simp; omega)]
+        congr 1
+      · have h1 : a < 0 := by omega
+        have h2 : ¬ a ≥ 0 := by omega
+        simp only [hpos, h1, h2, if_true, if_false]
+        obtain ⟨k', rfl⟩ : ∃ k', k = k' + 1 := ⟨k - 1, by omega⟩
+        rw [Nat.succ_mul] at hK
+        by_cases hr0 : r = 0
+        · subst hr0
+          have e0 : -((0 : Nat) : Int) = 0 := by simp
+          rw [e0, slice_some_none_nonneg _ _ (Int.le_refl 0)]
+          simp only [Int.toNat_zero, List.drop_zero]
+          have hc : window b 0 K ++ window b 0 K = window b 0 (K + K) := by
+            have h5 := window_append b 0 K K
+            rwa [window_eq_of b (0 + K) 0 0 (k' + 1) K K (by rw [Nat.succ_mul]; omega) rfl] at h5
+          rw [hc, slice_some_none_neg _ _ h1, hm, window_length, window_drop]
+          apply window_eq_of b _ _ 0 k'
+          · omega
+          · omega
+        · have e0 : (-(r : Int)).natAbs = r := by omega
+          rw [slice_some_none_neg (window b 0 K) (-(r : Int)) (by omega), e0, window_length,
+            window_drop]
+          have hc : window b (0 + (K - r)) (K - (K - r)) ++ window b 0 K
+              = window b (0 + (K - r)) (K - (K - r) + K) := by
+            have h5 := window_append b (0 + (K - r)) (K - (K - r)) K
+            rwa [window_eq_of b (0 + (K - r) + (K - (K - r))) 0 0 (k' + 1) K K
+              (by rw [Nat.succ_mul]; omega) rfl] at h5
+          rw [hc, slice_some_none_neg _ _ h1, hm, window_length, window_drop]
+          apply window_eq_of b _ _ 0 k'
+          · omega
+          · omega
+    · simp only [hgt, if_false]
+      by_cases hneg : a < 0
+      · have h2 : ¬ a ≥ 0 := by omega
+        simp only [hneg, h2, if_true, if_false]
+        rw [slice_some_none_neg _ _ hneg, hm, drop_self]
+        by_cases hlt : m < b.length
+        · rw [Nat.mod_eq_of_lt hlt]
+          apply window_eq_of b _ _ 0 0 <;> omega
+        · have : m = b.length := by omega
+          subst this
+          rw [Nat.mod_self]
+          apply window_eq_of b _ _ 1 0 <;> omega
+      · have h2 : a ≥ 0 := by omega
+        simp only [hneg, h2, if_true, if_false]
+        rw [slice_none_some _ _ h2, take_self]
+        apply window_eq_of b _ _ 0 0 <;> omega
 
 /-- closed form of the reference Split: segment `i` is `b[i*a : i*a+a]` -/
 theorem refSplitN_formula {α} (a : Nat) (ha : 0 < a) :
